@@ -75,7 +75,7 @@ def correspondence(ctx):
             f = l.split(";")
             agg[f[4]] += int(f[3])
         want = sorted("%s;%d" % (a, v) for a, v in agg.items())
-        rows = rb_.rows(bn)
+        rows = rb_.rows(bn) or [None]      # an empty file has no header line either
         got = sorted(rows[1:])
         if got != want or rows[0] != "address;balance" or bn.replace("balances", "") != un.replace("unspent", ""):
             ctx.disagree("cross-check", bb.describe(s), {"balances_only": sorted(set(got) - set(want))[:3], "header": rows[0], "name": bn, "n": len(got)}, {"aggregate_only": sorted(set(want) - set(got))[:3], "name": un, "n": len(want)}, True,
